@@ -71,6 +71,8 @@ def actions_taken(out):
     return acts
 
 
+LONG = ("L4095", "L4096", "L4097", "L5K", "L40K", "L65535", "L65536")   # rule lines of that many bytes
+
 SHARDS = 6   # test processes run side by side (the code under test forces a GC per engine rebuild,
              # which stalls every goroutine of a process, so processes scale and goroutines do not)
 
@@ -127,7 +129,7 @@ def go_sharded(ctx, run, envs, timeout=1500):
 
 # ------------------------------------------------------------- parser half
 def parser_vectors(ctx):
-    cfgs = ["RuleList.q1.cfg", "RuleList.q2.cfg"] if ctx.quick else ["RuleList.t1.cfg", "RuleList.t2.cfg"]
+    cfgs = ["RuleList.q1.cfg", "RuleList.q2.cfg", "RuleList.lenq.cfg"] if ctx.quick else ["RuleList.t1.cfg", "RuleList.t2.cfg", "RuleList.len.cfg"]
     seen, vectors = set(), []
     for i, cfg in enumerate(cfgs):
         r = ctx.tlc("RuleList", cfg, workers=6, timeout=800, coverage=(i == 0))
@@ -147,12 +149,16 @@ def parser_vectors(ctx):
     for v in vectors:
         oks = [a["ok"] for a in v["adm"] if not a["cosm"]]
         kinds["soft" if len(oks) > 1 else ("ok" if oks[0] else "fail")] += 1
+        if any(t in LONG for t in v["t"]):
+            kinds["long-line"] += 1
+            if any(t not in LONG and t not in ("LF", "CR", "SP", "HASH") for t in v["t"]):
+                kinds["long-line-among-short-rules"] += 1
         if "COSM" in v["t"]:
             kinds["policy-dependent" if len({json.dumps(sorted((a["ok"], a["rules"]) for a in v["adm"] if a["cosm"] == c))
                                              for c in (False, True)}) > 1 else "cosm-line"] += 1
             if "TITLE" in v["t"] and v["t"].index("TITLE") < len(v["t"]) - 1 - v["t"][::-1].index("COSM"):
                 kinds["cosm-after-title"] += 1
-    for k in ("ok", "fail", "soft", "policy-dependent", "cosm-after-title"):
+    for k in ("ok", "fail", "soft", "policy-dependent", "cosm-after-title", "long-line-among-short-rules"):
         if kinds[k] == 0:
             raise vlib.Inconclusive("vacuous: no parser vector of kind %s" % k)
     # negative control: a parser whose treatment of "#"-lines depends on the mode
@@ -228,6 +234,7 @@ UNIVERSES = {
     "FilterRefresh.mc.cfg": {"block": ["b1"], "allow": ["a1"]},
     "FilterRefresh.mck.cfg": {"block": ["b1"], "allow": ["a1"]},   # the same with the other parser policy
     "FilterRefresh.three.cfg": {"block": ["b1", "b2"], "allow": ["a1"]},
+    "FilterRefresh.long.cfg": {"block": ["b1"], "allow": ["a1"]},    # rule lines of 4095 .. 65535 bytes
 }
 
 
@@ -599,21 +606,29 @@ def run(ctx):
     edges3 = refresh_edges(ctx, "FilterRefresh.three.cfg", coverage=False)
     res3 = refresh_replay(ctx, edges3, UNIVERSES["FilterRefresh.three.cfg"], "three", rng, budget=1000 if ctx.quick else None)
 
+    # line length through the real download-and-store path
+    edgesl = refresh_edges(ctx, "FilterRefresh.long.cfg", coverage=False)
+    longrew = sum(1 for e in edgesl if any(any(t in LONG for t in b["t"]) and l in e["rew"] for l, b in e["script"].items()))
+    if longrew == 0:
+        raise vlib.Inconclusive("vacuous: no edge stores a list with a long line")
+    resl = refresh_replay(ctx, edgesl, UNIVERSES["FilterRefresh.long.cfg"], "long", rng, budget=1200 if ctx.quick else None)
+
     # ---- refresh half, direction B
     rrows, verdict = refresh_trace(ctx, cosm)
     if verdict["odd"]:
         raise vlib.Inconclusive("refresh trace: harness and specification disagree on the contacted lists at lines %s" % verdict["odd"][:5])
     resb = reproduce_trace_lines(ctx, rrows, verdict, cosm)
 
-    steps_a = res2["steps"] + res3["steps"]
-    n_edges = len(edges) + len(edges3)
-    skipped = res2["skipped"] + res3["skipped"]
-    contact = res2["contact_mismatch"] + res3["contact_mismatch"]
+    tot = {k: res2[k] + res3[k] + resl[k] for k in res2}
+    steps_a = tot["steps"]
+    n_edges = len(edges) + len(edges3) + len(edgesl)
+    skipped = tot["skipped"]
+    contact = tot["contact_mismatch"]
     if skipped or contact:
         raise vlib.Inconclusive("tour harness skipped %d tours, %d contact mismatches" % (skipped, contact))
-    if steps_a + res2["truncated"] + res3["truncated"] < res2["planned"] + res3["planned"] and not ctx.violations:
-        raise vlib.Inconclusive("tours walked %d of %d planned steps" % (steps_a, res2["planned"] + res3["planned"]))
-    nontrivial_edges = res2["nontrivial"] + res3["nontrivial"]
+    if steps_a + tot["truncated"] < tot["planned"] and not ctx.violations:
+        raise vlib.Inconclusive("tours walked %d of %d planned steps" % (steps_a, tot["planned"]))
+    nontrivial_edges = tot["nontrivial"]
     trace_steps = sum(1 for r in rrows if r.get("ev") == "step")
     samples = [
         {"parser_vector": vectors[len(vectors) // 3]},
@@ -622,7 +637,7 @@ def run(ctx):
         {"refresh_trace_line": {k: rrows[1][k] for k in ("act", "script", "obs", "rew", "sumchg") if k in rrows[1]}},
     ]
     cov = {
-        "traces_validated_against_impl": psumm["n"] + len(trows) + res2["tours"] + res3["tours"] + len({r["trace"] for r in rrows}),
+        "traces_validated_against_impl": psumm["n"] + len(trows) + tot["tours"] + len({r["trace"] for r in rrows}),
         "evaluations": psumm["n"] + len(trows) + steps_a + trace_steps,
         "distinct_nontrivial": psumm["nontrivial"] + nontrivial_edges,
         "rule": "parser vectors: one per text of the enumerated universe, non-trivial = accepted with at least one stored rule; "
@@ -631,12 +646,12 @@ def run(ctx):
         "parser_policy_measured": psumm["policies"], "refresh_universe": mc,
         "parser_vectors": len(vectors), "parser_vector_kinds": dict(vkinds), "parser_vectors_replayed": psumm["n"],
         "parser_bad": len(pbad), "parser_trace_lines": len(trows), "parser_trace_rejected": len(tbad),
-        "refresh_edges": n_edges, "refresh_edges_selected": res2["selected"] + res3["selected"],
-        "refresh_edge_kinds": dict(stats), "refresh_steps_walked": steps_a,
-        "refresh_tours": res2["tours"] + res3["tours"], "refresh_steps_planned": res2["planned"] + res3["planned"],
-        "refresh_bad_steps": res2["bad"] + res3["bad"], "refresh_flaky": res2["flaky"] + res3["flaky"] + resb["flaky"],
-        "refresh_bad_steps_not_rerun_alike": res2["not_rerun"] + res3["not_rerun"],
-        "refresh_steps_lost_after_a_disagreement": res2["truncated"] + res3["truncated"],
+        "refresh_edges": n_edges, "refresh_edges_selected": tot["selected"],
+        "refresh_edge_kinds": dict(stats), "refresh_edges_storing_a_long_line": longrew, "refresh_steps_walked": steps_a,
+        "refresh_tours": tot["tours"], "refresh_steps_planned": tot["planned"],
+        "refresh_bad_steps": tot["bad"], "refresh_flaky": tot["flaky"] + resb["flaky"],
+        "refresh_bad_steps_not_rerun_alike": tot["not_rerun"],
+        "refresh_steps_lost_after_a_disagreement": tot["truncated"],
         "truncated_by_known_finding": 0,
         "refresh_trace_steps": trace_steps, "refresh_trace_rejected": len(verdict["bad"]),
         "negative_controls": ["FilterRefresh.asis.cfg (pre-fix early return before the engine rebuild) violates FailureIsNoOp",
